@@ -102,10 +102,17 @@ int sim_commit(int kind, int n, int v)
 	return v;
 }
 
+#define SPIN_EDGE_LIMIT 40000000ULL
+static __thread uint64_t spin_edges; /* basic blocks executed by this thread since its last synchronisation operation or recorded event */
+static uint64_t spin_max;
+
 void sim_event(uint64_t tag, uint64_t a, uint64_t b)
 {
 	G.evhash = mix64(mix64(G.evhash, tag), mix64(a, b));
 	G.nevents++;
+	if(spin_edges > spin_max)
+		spin_max = spin_edges;
+	spin_edges = 0;
 }
 
 /* ------------------------------------------------------------------ probes */
@@ -298,13 +305,14 @@ void sim_finish(const char *status)
 	char line[12000];
 	int len = snprintf(line, sizeof(line),
 	    "RES seed=%lld status=%s prop=%s cls=%s hash=%016llx sps=%llu dec=%llu cs=%llu vclk=%llu ev=%llu idle=%llu "
-	    "f_stall=%llu f_clkjump=%llu f_clkback=%llu f_stop=%llu f_tmpfile=%llu f_edge=%llu f_rot=%llu %s probes=%s msg=\"%s\" "
+	    "f_stall=%llu f_clkjump=%llu f_clkback=%llu f_stop=%llu f_tmpfile=%llu f_edge=%llu f_rot=%llu maxspin=%llu %s probes=%s msg=\"%s\" "
 	    "note=\"%s\"\n",
 	    (long long)P.seed, status, verdict_prop, verdict_cls, (unsigned long long)G.evhash, (unsigned long long)G.sps,
 	    (unsigned long long)G.didx, (unsigned long long)G.ctx_switches, (unsigned long long)G.clock_us,
 	    (unsigned long long)G.nevents, (unsigned long long)G.idle_jumps, (unsigned long long)G.f_stalls,
 	    (unsigned long long)G.f_clk_jumps, (unsigned long long)G.f_clk_back, (unsigned long long)G.f_stop,
-	    (unsigned long long)G.f_tmpfile, (unsigned long long)G.f_edge_yields, (unsigned long long)G.f_rotations, extra,
+	    (unsigned long long)G.f_tmpfile, (unsigned long long)G.f_edge_yields, (unsigned long long)G.f_rotations,
+	    (unsigned long long)(spin_edges > spin_max ? spin_edges : spin_max), extra,
 	    pb[0] ? pb : "-", verdict_msg, note_buf);
 	if(len > (int)sizeof(line) - 1)
 		len = sizeof(line) - 1;
@@ -706,6 +714,9 @@ static void sp_tail(struct vthread *t)
 static void sp_common(struct vthread *t, int kind, const volatile void *addr, unsigned size, const char *file, int line,
     const char *func)
 {
+	if(spin_edges > spin_max)
+		spin_max = spin_edges;
+	spin_edges = 0;
 	/* did the previous operation of this thread change shared state? */
 	if(t->sp_addr && t->sp_kind != VSP_LOAD_K && peek(t->sp_addr, t->sp_size) != t->sp_pre)
 		sim_progress();
@@ -775,7 +786,25 @@ __attribute__((no_sanitize_address)) void __sanitizer_cov_trace_pc(void)
 	if(g_pcmap)
 		g_pcmap[((uintptr_t)__builtin_return_address(0) >> 1) & (PCMAP_SZ - 1)] = 1;
 	struct vthread *t = vt_self;
-	if(!t || !G.active || P.edge_every <= 0)
+	if(!t && P.engine == 1 && g_result_fd >= 0) {
+		/* the allocator history runs on the main thread of the child: an operation that executes this many basic blocks never returns */
+		if(++spin_edges > SPIN_EDGE_LIMIT) {
+			spin_edges = 0;
+			extern const char *units_spin_prop;
+			sim_violation(units_spin_prop, "operation-does-not-return", "an allocator operation executed %llu basic blocks without returning",
+			    (unsigned long long)SPIN_EDGE_LIMIT);
+		}
+		return;
+	}
+	if(!t || !G.active)
+		return;
+	/* a thread that executes this many basic blocks of the runtime without a single synchronisation operation is in a loop that no
+	 * other thread can end (the count is a function of the execution alone, so the verdict replays) */
+	if(++spin_edges > SPIN_EDGE_LIMIT) {
+		spin_edges = 0;
+		report_hang("spin-without-synchronisation");
+	}
+	if(P.edge_every <= 0)
 		return;
 	if(++edge_cnt < (uint64_t)P.edge_every)
 		return;
